@@ -327,6 +327,11 @@ func genCase(t *rapid.T) mcase {
 	}
 	names := [][]string{{""}, {"os"}, {"os", "arch"}, {"os", "arch", "go.ver"}, {}}[rapid.IntRange(0, 4).Draw(t, "dims")]
 	vals := []string{"x", "y", "z", "1", "true", ""}
+	if rapid.IntRange(0, 3).Draw(t, "numeric") == 0 {
+		// values that are different strings and the same number, or differ in case or white space only:
+		// matrix values are strings and compared as such
+		vals = []string{"1", "01", "1.0", "1.10", "1.1", "10", "1e1", "+3", "3", "0x10", "16", "X", "x", "x ", ""}
+	}
 	val := rapid.SampledFrom(vals)
 	c.Setup = map[string][]string{}
 	for _, d := range names {
